@@ -8,6 +8,8 @@ package interp
 import (
 	"fmt"
 	"go/token"
+	"sort"
+	"strings"
 )
 
 type goroutine struct {
@@ -147,14 +149,32 @@ func (s *scheduler) onDeadlock() {
 	panic(abortPath{"stop", "path aborted"})
 }
 
+// describeBlocked lists who is blocked where (main first, the others as a
+// sorted set without goroutine numbers, so that equal situations compare equal).
 func (s *scheduler) describeBlocked() string {
 	d := ""
+	seen := map[string]bool{}
+	var others []string
 	for _, g := range s.gs {
 		if !g.done && (g.blocked || g == s.cur) {
-			d += fmt.Sprintf("[g%d %s: %s] ", g.id, g.topFn, g.waitDesc)
+			if g.isMain {
+				d = "main blocked at " + g.waitDesc + "; others: "
+				continue
+			}
+			k := shortFn(g.topFn) + " at " + g.waitDesc
+			if !seen[k] {
+				seen[k] = true
+				others = append(others, k)
+			}
 		}
 	}
-	return d
+	sort.Strings(others)
+	return d + strings.Join(others, " | ")
+}
+
+func shortFn(s string) string {
+	s = strings.ReplaceAll(s, "github.com/ory/keto/internal/", "")
+	return s
 }
 
 func (s *scheduler) ready(g *goroutine) {
